@@ -16,7 +16,7 @@ WT = "/tmp/seedmx"
 PINNED = "c8c8cb2"
 EXTRA = {"C07-B": ["C03"], "C02-A": ["C09"], "C06-A": ["C05"], "C06-B": ["C18"], "C05-B": ["C03"], "C13-B": ["C03"],
          "C08-D": ["C03"], "C13-C": ["C03"], "C13-D": ["C03"], "C10-D": ["C03"], "C02-C": ["C03"], "C07-C": ["C03"],
-         "C04-D": ["C03"], "C09-E": ["C03"], "C11-F": ["C03"], "C13-E": ["C06"], "C13-F": ["C07"], "C07-E": ["C13"], "C14-F": ["C08"], "C10-F": ["C08"], "C01-F": ["C12"], "C17-F": ["C02"], "C19-G": ["C11"], "C14-G": ["C08"], "C03-J": ["C07"], "C09-C": ["C12"], "C09-D": ["C12"], "C01-D": ["C12"], "C19-D": ["C11"], "C08-C": ["C14"]}
+         "C04-D": ["C03"], "C09-E": ["C03"], "C11-F": ["C03"], "C13-E": ["C06"], "C13-F": ["C07"], "C07-E": ["C13"], "C14-F": ["C08"], "C10-F": ["C08"], "C01-F": ["C12"], "C17-F": ["C02"], "C13-G": ["C07"], "C19-G": ["C11"], "C14-G": ["C08"], "C03-J": ["C07"], "C09-C": ["C12"], "C09-D": ["C12"], "C01-D": ["C12"], "C19-D": ["C11"], "C08-C": ["C14"]}
 
 
 def sh(*a, **k):
